@@ -269,6 +269,7 @@ structure Counted1 (E : TopoEnv) (nodes ps : List Nat) (d d' : DegMap) (m m' : S
   deg : ∀ x, d'.get x = if x ∈ ps then some (bump (d.get x)) else d.get x
   q_old : ∀ e, e ∈ E.qg.items qu → e ∈ E.qg.items qu'
   q_new : ∀ e, e ∈ E.qg.items qu' → e ∈ E.qg.items qu ∨ (e.1 = genTime E.g e.2 ∧ e.2 ∈ ps ∧ m.fInDeg e.2 = false)
+  q_in : ∀ p, p ∈ ps → m.fInDeg p = false → (genTime E.g p, p) ∈ E.qg.items qu'
   q_nodup : ((E.qg.items qu).map (·.2)).Nodup → (∀ e, e ∈ E.qg.items qu → m.fInDeg e.2 = true) →
       ((E.qg.items qu').map (·.2)).Nodup
   psi : (E.qg.items qu').length + unflagged nodes m' ≤ (E.qg.items qu).length + unflagged nodes m
@@ -282,7 +283,7 @@ theorem indegreeParents_spec {E : TopoEnv} (hq : E.qg.Lawful) (nodes : List Nat)
   | nil =>
     intro d m qu _ _ _
     refine ⟨d, m, qu, rfl, ⟨fun _ => rfl, fun _ => rfl, fun _ => rfl, fun _ => rfl, by intro x; simp,
-      by intro x; simp, fun e h => h, fun e h => Or.inl h, fun h _ => h, Nat.le_refl _⟩⟩
+      by intro x; simp, fun e h => h, fun e h => Or.inl h, by intro p hp; simp at hp, fun h _ => h, Nat.le_refl _⟩⟩
   | cons p ps ih =>
     intro d m qu hnd hhas hnodes
     have hnd' := List.nodup_cons.mp hnd
@@ -310,7 +311,7 @@ theorem indegreeParents_spec {E : TopoEnv} (hq : E.qg.Lawful) (nodes : List Nat)
       · rw [if_pos hin]
         obtain ⟨d', m', qu', h1, h2⟩ := ih d1 m qu hnd'.2 (fun q hq' => hhas q (List.mem_cons_of_mem _ hq'))
           (fun q hq' => hnodes q (List.mem_cons_of_mem _ hq'))
-        refine ⟨d', m', qu', h1, ⟨h2.has, h2.fU, h2.fExplored, h2.fAdded, ?_, hdeg d' h2.deg, h2.q_old, ?_,
+        refine ⟨d', m', qu', h1, ⟨h2.has, h2.fU, h2.fExplored, h2.fAdded, ?_, hdeg d' h2.deg, h2.q_old, ?_, ?_,
           h2.q_nodup, h2.psi⟩⟩
         · intro x
           rw [h2.fInDeg]
@@ -321,6 +322,10 @@ theorem indegreeParents_spec {E : TopoEnv} (hq : E.qg.Lawful) (nodes : List Nat)
           cases h2.q_new e he with
           | inl h => exact Or.inl h
           | inr h => exact Or.inr ⟨h.1, List.mem_cons_of_mem _ h.2.1, h.2.2⟩
+        · intro q hq' hqf
+          cases List.mem_cons.mp hq' with
+          | inl h => subst h; rw [hF, hin] at hqf; cases hqf
+          | inr h => exact h2.q_in q h hqf
       · rw [if_neg hin]
         have hFf : m.fInDeg p = false := by rw [hF]; simpa using hin
         obtain ⟨s1, s2, s3, s4, s5⟩ := set_indeg_proj m p st hget
@@ -329,7 +334,7 @@ theorem indegreeParents_spec {E : TopoEnv} (hq : E.qg.Lawful) (nodes : List Nat)
           (fun q hq' => by rw [s1]; exact hhas q (List.mem_cons_of_mem _ hq'))
           (fun q hq' => hnodes q (List.mem_cons_of_mem _ hq'))
         have hins := hq.items_insert (genTime E.g p) p qu
-        refine ⟨d', m', qu', h1, ⟨?_, ?_, ?_, ?_, ?_, hdeg d' h2.deg, ?_, ?_, ?_, ?_⟩⟩
+        refine ⟨d', m', qu', h1, ⟨?_, ?_, ?_, ?_, ?_, hdeg d' h2.deg, ?_, ?_, ?_, ?_, ?_⟩⟩
         · intro x; rw [h2.has, s1]
         · intro x; rw [h2.fU, s2]
         · intro x; rw [h2.fExplored, s3]
@@ -350,6 +355,15 @@ theorem indegreeParents_spec {E : TopoEnv} (hq : E.qg.Lawful) (nodes : List Nat)
             rw [s5] at a3
             simp only [Bool.or_eq_false_iff] at a3
             exact Or.inr ⟨a1, List.mem_cons_of_mem _ a2, a3.1⟩
+        · intro q hq' hqf
+          by_cases hqp : q = p
+          · subst hqp
+            exact h2.q_old _ (hins.symm.subset List.mem_cons_self)
+          · cases List.mem_cons.mp hq' with
+            | inl h => exact absurd h hqp
+            | inr h =>
+              apply h2.q_in q h
+              rw [s5]; simp [hqf, hqp]
         · intro hnq hfl
           apply h2.q_nodup
           · have hperm := hins.map (·.2)
